@@ -14,10 +14,12 @@ ASSUMPTIONS = [
     "exact rational arithmetic: rust_decimal rounding of the return, of the win-rate and profit-factor quotients is not modelled (compared to 1e-18); a Decimal quotient is never the negative zero",
     "InstrumentIndex / AssetIndex = position in the engine's FnvIndexMaps = position in the summary's maps (C11); the harness looks tear sheets up by instrument name / ExchangeAsset key",
     "Sharpe / Sortino / Calmar / drawdown fields of the tear sheets are outside C16 (C17, C18) and not compared",
+    "the arithmetic kernels calculate_pnl_return (position.rs), WinRate::calculate (metric/win_rate.rs), ProfitFactor::calculate (metric/profit_factor.rs) are additionally tied to the source by translation: tools/rust2lean.py regenerates their Lean definitions from the current Rust text before every build (PREBUILD) and theorem kernels_agree_with_source proves them equal to the model's definitions for all arguments; trusted there: the translator's reading of the small Rust subset it accepts (it rejects everything else) and its fixed Decimal prelude (abs, is_zero, checked_div = None exactly on a zero divisor, MAX/MIN)",
 ]
 SOURCE_FILES = ["barter/src/statistic/summary/instrument.rs", "barter/src/statistic/summary/pnl.rs", "barter/src/statistic/summary/mod.rs",
                 "barter/src/statistic/summary/asset.rs", "barter/src/statistic/metric/win_rate.rs", "barter/src/statistic/metric/profit_factor.rs",
                 "barter/src/engine/state/position.rs", "barter/src/engine/state/asset/mod.rs", "barter/src/engine/state/instrument/mod.rs"]
+PREBUILD = [["python3", "tools/rust2lean.py", "--require", "metric"]]
 
 
 def signature(ops, k, key, impl_line, spec_line):
@@ -54,4 +56,5 @@ LEVEL_NOTE = ("Trusted: Lean kernel; axioms propext/Classical.choice/Quot.sound 
               "compared to 1e-18). Assumes non-zero entry_price*quantity_max per position and known instrument/asset keys (the code panics otherwise; "
               "checked as `panic` on both sides). Asset tear sheets: only balance_end is in scope (drawdowns are C18); Sharpe/Sortino/Calmar not compared. "
               "Break-even positions count as wins for the win rate and contribute zero gross win, so break-evens + losses give Decimal::MIN; "
-              "the doc comment of ProfitFactor says `1.0` for zero profits and zero losses while code and unit test return None (reported, not a C16 clause).")
+              "the doc comment of ProfitFactor says `1.0` for zero profits and zero losses while code and unit test return None (reported, not a C16 clause). "
+              "Additionally tied by translation: the Lean definitions of the kernels calculate_pnl_return (position.rs), WinRate::calculate (metric/win_rate.rs), ProfitFactor::calculate (metric/profit_factor.rs) are regenerated from the current source on every run (tools/rust2lean.py) and proved equal to the model's (kernels_agree_with_source), so a change of such a kernel breaks a proof obligation directly; the translator and its Decimal prelude are trusted for that tie.")
